@@ -264,6 +264,15 @@ fn rejected_inputs() -> Vec<(&'static str, &'static str)> {
         ("tagged-key", "!Ref x: v\n"),
         ("tagged-key-explicit", "? !Sub a\n: v\n"),
         ("nested-tagged-key", "a:\n  !GetAtt b.c: 1\n"),
+        // a well-formed document followed by something else
+        ("trailing-word", "{\"a\": 1} xyz"),
+        ("trailing-brace", "{\"a\": 1}}"),
+        ("trailing-comma", "{\"a\": 1},"),
+        ("two-json-documents", "{\"a\": 1}{\"b\": 2}"),
+        ("two-json-documents-lines", "{\"a\": 1}\n{\"b\": 2}\n"),
+        ("trailing-text-after-end-marker", "a: 1\n...\nxyz: [\n"),
+        ("two-yaml-documents", "a: 1\n---\nb: 2\n"),
+        ("trailing-bracket-block", "a: 1\n]\n"),
     ]
 }
 
